@@ -123,20 +123,40 @@ class Controller:
                     stack.append(answers[:i] + [alt])
 
 
+_RANDOM_FUNCS = ("shuffle", "choice", "sample", "random", "randint", "randrange", "getrandbits", "choices",
+                 "uniform")
+
+
 @contextlib.contextmanager
-def controlled(modules):
-    """rebind the name `random` in the given modules to an enumerating fake"""
+def controlled(modules=None, package="jsonpath_rfc9535"):
+    """Rebind every use of the stdlib `random` module inside the package under test to an
+    enumerating fake: the module object bound to any global name of any loaded package module
+    (`import random`, `import random as r`) and any stdlib random function imported by name
+    (`from random import shuffle`).  `modules` is accepted for backward compatibility."""
+    import random as _stdlib
+    import sys as _sys
+
     chooser = Chooser()
     fake = FakeRandom(chooser)
+    by_func = {}
+    for fn in _RANDOM_FUNCS:
+        by_func[id(getattr(_stdlib, fn))] = getattr(fake, fn)
     saved = []
-    for m in modules:
-        saved.append((m, getattr(m, "random", None)))
-        m.random = fake
+    mods = [m for n, m in list(_sys.modules.items())
+            if m is not None and (n == package or n.startswith(package + "."))]
+    for m in list(modules or []):
+        if m not in mods:
+            mods.append(m)
+    for m in mods:
+        for name, val in list(vars(m).items()):
+            if val is _stdlib:
+                saved.append((m, name, val))
+                setattr(m, name, fake)
+            elif id(val) in by_func and callable(val) and getattr(val, "__self__", None) is getattr(_stdlib, "_inst", None):
+                saved.append((m, name, val))
+                setattr(m, name, by_func[id(val)])
     try:
         yield Controller(chooser)
     finally:
-        for m, old in saved:
-            if old is None:
-                delattr(m, "random")
-            else:
-                m.random = old
+        for m, name, old in saved:
+            setattr(m, name, old)
